@@ -235,6 +235,9 @@ type recSigner struct {
 	nbuf    int
 	value   []byte
 	calls   int
+	// during, if set, runs once at the start of the first ComputeSigValue call: whatever else the
+	// application does while this packet is being signed
+	during func()
 }
 
 func (r *recSigner) SigInfo() (*ndn.SigConfig, error) {
@@ -244,6 +247,10 @@ func (r *recSigner) SigInfo() (*ndn.SigConfig, error) {
 }
 func (r *recSigner) EstimateSize() uint { return r.inner.EstimateSize() }
 func (r *recSigner) ComputeSigValue(w enc.Wire) ([]byte, error) {
+	if d := r.during; d != nil {
+		r.during = nil
+		d()
+	}
 	r.calls++
 	r.nbuf = len(w)
 	r.covered = r.covered[:0]
